@@ -418,7 +418,14 @@ func (p *Proxy) handleConnectRequest(ctx *Context, req *http.Request, session *S
 				// The CONNECT exchange is over; its context must not stay retrievable for
 				// as long as the HTTP/2 session in the tunnel lasts.
 				unlink(req)
-				return p.mitm.H2Config().Proxy(p.closing, tlsconn, req.URL)
+				// The connection carried an HTTP/2 session (or the attempt at one): whatever
+				// ended it, nothing more can be read from it as HTTP/1. Without this an
+				// upstream that could not be reached left the client waiting on a connection
+				// the proxy went on reading as if it were a new request.
+				if err := p.mitm.H2Config().Proxy(p.closing, tlsconn, req.URL); err != nil {
+					log.Errorf("martian: HTTP/2 session for %s ended: %v", req.Host, err)
+				}
+				return errClose
 			}
 
 			var nconn net.Conn
